@@ -56,17 +56,17 @@ impl Gen {
         let (sboms, files, execs, mdv, causes) = (["s1", "s2", "s3"], ["f1", "f2", "f3"], ["p1", "p2", "p3"], ["1", "2", "3"], ["c1", "c2"]);
         let env_toks = ["e1", "e2", "e3"];
         let md_of = |r: &mut fastrand::Rng, t: &str| -> AMd {
-            let kind = match t { "G" => pick(r, &["none", "A", "B", "X"]), k => k };
+            let kind = match t { "G" => pick(r, &["none", "A", "B", "X", "AX"]), "L" => "A", k => k };
             if kind == "none" { no_md() } else { AMd { kind: kind.into(), v: pick(r, &mdv).into() } }
         };
         if r.u32(..100) < 55 {
             let n = pick(r, &NAMES).to_string();
             let mut o = env_obs("?", &n);
-            let t = pick(r, &["A", "B", "G"]).to_string();
+            let t = pick(r, &["A", "B", "G", "L"]).to_string();
             o.t = t.clone();
             let dec = |r: &mut fastrand::Rng, ks: &[&str], with_md: bool| -> ADec {
                 let k = pick(r, ks);
-                ADec { k: k.into(), c: if k == "Err" { "-".into() } else { pick(r, &causes).into() }, md: if with_md && k == "Replace" && t != "G" { AMd { kind: t.clone(), v: pick(r, &mdv).into() } } else { no_md() } }
+                ADec { k: k.into(), c: if k == "Err" { "-".into() } else { pick(r, &causes).into() }, md: if with_md && k == "Replace" && t != "G" { AMd { kind: if t == "L" { "A".into() } else { t.clone() }, v: pick(r, &mdv).into() } } else { no_md() } }
             };
             let res = |r: &mut fastrand::Rng| -> ARes {
                 if r.u32(..8) == 0 { return ARes { k: "Err".into(), md: no_md(), shape: no_shape() }; }
